@@ -131,7 +131,7 @@ class Arm(Robot):
             self._joint_homes_global = [tm()]
             for i in range(joint_poses_home.shape[1]):
                 self._joint_homes_global.append(
-                        tm([joint_poses_home[0][i],
+                        base_pos_global @ tm([joint_poses_home[0][i],
                             joint_poses_home[1][i],
                             joint_poses_home[2][i], 0, 0, 0]))
             self._joint_homes_global = self._joint_homes_global[1:]
